@@ -69,6 +69,9 @@ def run(tier, seed):
                 short.append(("20 %s; charset=%s" % (mime, cs)).encode("utf-8") + b"\r\n" + body)
     # an empty media type (text/gemini by default) and a text type with bodies that are not UTF-8
     short += [b"20 \r\n\xff\xfe\x00raw", b"20\r\n\xff\xfe", b"20 text/plain\r\n\xe9t\xe9", b"20 text/gemini\r\n\x80"]
+    # a byte order mark at the start of a text body is part of the body (the codec is "utf-8", not "utf-8-sig"), as is one inside
+    short += [b"20 text/gemini\r\n\xef\xbb\xbf# title", b"20 \r\n\xef\xbb\xbf", b"20 text/plain; charset=utf-8\r\n\xef\xbb\xbfx", b"20 text/plain\r\na\xef\xbb\xbfb",
+              b"20 text/plain; charset=utf-16\r\n\xff\xfeh\x00i\x00"]
     streams = short + [gen_stream(rng) for _ in range(120 if tier == "quick" else 1500)]
     cases = []
     for s in streams:
